@@ -13,7 +13,7 @@ package utils
 //@ func HasSingleEthereumMessage(tx sdk.Tx) bool
 //@   modifies nothing
 //@   ensures[C07.iff_single,C06.iff_single,C09.iff_single,C16.iff_single] result == single(payload(tx))
-//@   panics only_if tx == nil || !txUnpacked(payload(tx))
+//@   panics[C20.only_undecoded_tx] only_if tx == nil || !txUnpacked(payload(tx))
 //@ loop 1
 //@   invariant -1 <= rangeindex && rangeindex <= 0 && rangeindex < txNMsgs(payload(tx)) && foundEthMsg == (rangeindex == 0) && (rangeindex == 0 ==> isEthMsgAt(payload(tx), 0))
 
@@ -24,4 +24,4 @@ package utils
 //@ func IsEthereumTx(tx sdk.Tx) bool
 //@   modifies nothing
 //@   ensures[C07.iff_shape] result == ethShape(payload(tx), typeof(tx))
-//@   panics only_if tx == nil || !txUnpacked(payload(tx))
+//@   panics[C20.only_undecoded_tx] only_if tx == nil || !txUnpacked(payload(tx))
